@@ -33,7 +33,7 @@ REG = [
 ]
 
 
-def build():
+def build(transport="neutral"):
     Base = declarative_base()
 
     class Client(Base, OAuth2ClientMixin):
@@ -61,10 +61,12 @@ def build():
 
     from authlib.oauth2.rfc6749 import AuthorizationServer
 
-    class Srv(AuthorizationServer):
+    class Srv(S.Server):
+        # S.Server: the request goes through the framework-free path or the repository's Flask / Django glue (impl/transports.py);
+        # clients and tokens are the SQLAlchemy rows, through functions.py
         def __init__(self):
-            super().__init__()
-            self.register_token_generator("default", BearerTokenGenerator(lambda **kw: fresh("at"), lambda **kw: fresh("rt")))
+            S.Server.__init__(self, S.Store(), token_generator=BearerTokenGenerator(lambda **kw: fresh("at"), lambda **kw: fresh("rt")),
+                              transport=transport)
             self._qc = create_query_client_func(session, Client)
             self._st = create_save_token_func(session, Token)
 
@@ -76,16 +78,6 @@ def build():
 
         def send_signal(self, *a, **k):
             pass
-
-        def create_oauth2_request(self, request):
-            from authlib.oauth2 import OAuth2Request
-            return request if isinstance(request, OAuth2Request) else OAuth2Request(request.method, request.uri, request.form, request.headers)
-
-        def create_json_request(self, request):
-            raise NotImplementedError()
-
-        def handle_response(self, status, body, headers):
-            return status, body, headers
 
     srv = Srv()
 
@@ -155,12 +147,12 @@ def hdr(cred):
     return S.basic_header(*cred) if cred else {}
 
 
-def run_impl(ops):
+def run_impl(ops, transport="neutral"):
     clock = Clock()
     real = time.time
     time.time = clock
     try:
-        srv, rp, session, Token = build()
+        srv, rp, session, Token = build(transport)
         tokens = []   # (access string, refresh string)
         outs = []
         for o in ops:
@@ -265,9 +257,12 @@ def gen_ops(rng, length):
 
 def check_seq(ctx, ops, tag):
     m = ctx.model
-    got = run_impl(ops)
+    from impl import transports as T
+    transport = T.pick(ops)
+    ctx.count("transport:" + transport)
+    got = run_impl(ops, transport)
     mod = m.call("tokenlife_run", {"registry": REG, "introspector": "rs", "ops": ops})
-    case = {"ops": ops}
+    case = {"ops": ops, "transport": transport}
     ctx.case(case, (tag, json.dumps(ops, sort_keys=True)), "seq:%s:len%d" % (tag, len(ops)))
     for o, x in zip(ops, got["outs"]):
         ctx.count("out:%s:%s" % (o["op"], x[0] if x[0] != "error" else x[2]))
